@@ -394,6 +394,7 @@ static void appOps(World *w, const ThreadProg &tp)
     {
       w->tr.add(vf::Ev("LifeCall").str("t", tp.name).str("op", "start"));
       w->stopReturned.store(false, std::memory_order_release); // a new run cycle begins
+      w->port.store(0);                                         // ... whose listeners are new ones (the old port is dead)
       bool ok = t->start().isOk();
       if (ok) w->running.store(true);
       w->tr.add(vf::Ev("LifeRet").str("t", tp.name).str("op", "start").b("ok", ok));
